@@ -42,13 +42,13 @@ def gen(seed, tier):
         bnd = [L - 2, L - 1, L, L + 1, -2, -1, 0, 1, 2, O - 2, O - 1, O, O + 1, O + 2, O + 3, (L + O) // 2]
         if n == 3 and s == 's':
             bnd += [-1234, -8388608, -8388607, 8388605, -1, -256, -65536, -65537]
-        for p in (PRECS if thorough else PRECS[::2] + [0.01, 1.0]):
+        for p in (PRECS if thorough else [1e-16, 1e-7, 0.004, 0.01, 1.0, 3600.0, -0.01]):
             codes = set(bnd)
             if n == 1:
                 codes |= set(range(L - 1, O + 4)) if (thorough or p in (0.01, 1.0, 0.25)) else set()
             elif n == 2:
-                codes |= set(range(L - 1, O + 4)) if (thorough and p in (0.01, 1.0, 0.004)) else set(range(L, O + 3, 257 if not thorough else 17))
-            for _ in range(60 if not thorough else 600):
+                codes |= set(range(L - 1, O + 4)) if (thorough and p in (0.01, 1.0, 0.004)) else set(range(L, O + 3, 1021 if not thorough else 17))
+            for _ in range(25 if not thorough else 600):
                 codes.add(r.randint(L, O))
                 codes.add(r.randint(L - 5, O + 5))
                 if n == 8:
@@ -56,7 +56,7 @@ def gen(seed, tier):
             for c in sorted(codes):
                 v = c * p
                 cases.append('RTD %d %s %s %s' % (n, s, db(v), db(p)))
-                if r.random() < (0.25 if not thorough else 0.6) or c in bnd:
+                if r.random() < (0.15 if not thorough else 0.6) or c in bnd:
                     # ties and their neighbours, quarter steps
                     for f in (0.5, -0.5, 0.25, -0.25, 0.49999999999999994, 0.75):
                         w = (c + f) * p
@@ -99,7 +99,7 @@ def gen(seed, tier):
                 d = r.choice([0, -1, 0x7fff, -32768])
             cases.append('GETI %s %d %d %d %s' % (kind, d, idx, datalen, data.hex() or '-'))
     for kind, n in [('b', 1), ('i2', 2), ('u2', 2), ('i3', 3), ('u4', 4), ('u8', 8)]:
-        for _ in range(60 if not thorough else 600):
+        for _ in range(25 if not thorough else 600):
             if kind in ('i2', 'i3'):
                 v = r.choice([0, -1, 1, -(1 << (8 * n - 1)), (1 << (8 * n - 1)) - 1, r.randint(-(1 << (8 * n - 1)), (1 << (8 * n - 1)) - 1)])
             else:
